@@ -20,6 +20,13 @@ class BuiltinMixin(object):
             _, relpath, fname = name.split(":")
             from .cfront import CFront
             return CFront(self).call_from_python(relpath, fname, args)
+        if name == "callfield":
+            # callable[ufunc name]: the stored callable is a pure function of (owner, arguments); callable[float]: any value
+            fty, owner = f.recv
+            rt = fty.args[0] if fty.args else T_ANY
+            if rt.kind == "ref" and rt.name in REG.ufuncs:
+                return self.call_ufunc(rt.name, [owner] + list(args))
+            return self.fresh_result_value(rt)
         if name == "ffi.new_handle":
             return args[0]
         if name == "ffi.from_handle":
